@@ -352,6 +352,30 @@ fn add_families(trace: &mut Trace, rng: &mut Rng, stats: &mut GenStats, big: boo
     }
 }
 
+/// The same family at sizes n, 2n, 4n, each on a parser of its own position in the trace.
+fn add_scaling(trace: &mut Trace, rng: &mut Rng, stats: &mut GenStats) {
+    if trace.parsers.is_empty() {
+        return;
+    }
+    let which = *rng.pick(hostile::SCALED);
+    let max_n = 60000 / hostile::unit(which) / 4;
+    let n = rng.urange((max_n / 16).max(2), max_n);
+    *stats.fired.entry("scaling_triple").or_insert(0) += 1;
+    let p = rng.usize_below(trace.parsers.len());
+    for (k, mult) in [1usize, 2, 4].iter().enumerate() {
+        let bufs = hostile::scaled(rng, which, n * mult);
+        let last = bufs.len() - 1;
+        for (j, b) in bufs.into_iter().enumerate() {
+            let len = b.len();
+            let mut faults = vec!["hostile".to_string()];
+            if j == last {
+                faults.push(format!("scale:{}:{}", which, k));
+            }
+            trace.events.push(Ev::Deliver { t: trace.sim_ns, p, buf: b, parts: vec![len], cut: None, faults });
+        }
+    }
+}
+
 pub fn gen_trace(prop: &str, run_seed: u64) -> (Trace, GenStats) {
     let mut rng = Rng::new(run_seed);
     let cfg = world_cfg(prop, &mut rng);
@@ -367,6 +391,7 @@ pub fn gen_trace(prop: &str, run_seed: u64) -> (Trace, GenStats) {
         }
         "C15" => {
             add_families(&mut trace, &mut rng, &mut stats, true);
+            add_scaling(&mut trace, &mut rng, &mut stats);
         }
         _ => {}
     }
